@@ -486,6 +486,129 @@ def slice_chains(quick=True):
                         yield "slicechain", renumber(t3)
 
 
+def multi_subscripts(quick=True):
+    """multi-part subscripts v[p1, p2(, p3)] (first part = most significant bits): every 2-part key on widths <= 3
+    (thorough: <= 4) for BitVector/Unsigned/Signed; every 3-part key on width 2 (thorough: 3) for BitVector and the
+    index-only / one-slice 3-part keys on width 3 (thorough: 4)"""
+    def parts(w):
+        return [("i", i) for i in range(w)] + [("s", hi, lo) for hi in range(w) for lo in range(hi + 1)]
+
+    w2 = (1, 2, 3) if quick else (1, 2, 3, 4)
+    for w in w2:
+        for kind in (bv, u, s):
+            for a in parts(w):
+                for b in parts(w):
+                    yield "multi", renumber(("multi", L(kind(w)), (a, b)))
+    w3 = 2 if quick else 3
+    for a in parts(w3):
+        for b in parts(w3):
+            for c in parts(w3):
+                yield "multi", renumber(("multi", L(bv(w3)), (a, b, c)))
+    wi = w3 + 1
+    for kind in (bv, u):
+        for a in parts(wi):
+            for b in parts(wi):
+                for c in parts(wi):
+                    if sum(1 for p_ in (a, b, c) if p_[0] == "s") <= 1 and len({a, b, c}) == 3 \
+                            and all(p_[0] == "i" or p_[1] - p_[2] == 1 for p_ in (a, b, c)):
+                        yield "multi", renumber(("multi", L(kind(wi)), (a, b, c)))
+
+
+SRC_KINDS = ("always", "alwaysblock", "localsig", "localvar", "fn")
+
+
+def source_views(quick=True):
+    """operand-source dimension: an operand that is the result of cohdl.always(expr), a `with cohdl.always:` block,
+    a locally constructed Signal / Variable or a function return value, used directly and through every typed view
+    in signedness dependent operations"""
+    seen = set()
+    widths = (2,) if quick else (2, 3)
+    for kind in SRC_KINDS:
+        for w in widths:
+            for T in (u(w), s(w), bv(w)):
+                inners = [L(T)]
+                if V.is_num(T):
+                    inners.append(("bin", "add", L(T), L(T)))
+                else:
+                    inners.append(("bin", "xor", L(T), L(T)))
+                if quick:
+                    # cohdl.always of a bare operand is an alias; locally constructed objects get the bare operand
+                    inners = inners[1:] if kind in ("always", "alwaysblock") else inners[:1]
+                for inner in inners:
+                    o = ("src", kind, inner)
+                    views = [o] + [("view", vk, o) for vk in ("signed", "unsigned", "bitvector")]
+                    views.append(("view", "signed", ("view", "bitvector", o)))
+                    for v in views:
+                        tv = V.typeof(v)
+                        cands = [v, ("slice", v, w - 1, 1), ("idx", v, w - 1), ("bin", "cat", v, L(BIT))]
+                        if V.is_num(tv):
+                            cands += [("resize", v, w + 2, 0), ("cmp", ("lt",), (v, lit(0))),
+                                      ("cmp", ("lt",), (v, L(tv))), ("cmp", ("ge",), (L(tv), v)),
+                                      ("bin", "shr", v, lit(1)), ("bin", "shr", v, L(u(1))), ("un", "neg", v),
+                                      ("bin", "mul", v, L(tv)), ("bin", "tdiv", v, L(tv)),
+                                      ("conv", "assign", (tv[0], w + 2), v), ("conv", "temporary", ("s", w + 2), v)]
+                            if tv[0] == "s":
+                                cands.append(("un", "abs", v))
+                        else:
+                            cands += [("cmp", ("eq",), (v, L(tv))), ("un", "inv", v)]
+                        for t in cands:
+                            t = renumber(t)
+                            if t not in seen and well_typed(t):
+                                seen.add(t)
+                                yield "srcview", t
+
+
+def source_selects(quick=True):
+    """if-expressions and select_with with an operand of every source kind in every operand position
+    (condition / selector, then, else / default, dictionary branch), and redundant bool(...) of boolean temporaries"""
+    seen = set()
+
+    def srcs(T):
+        out = []
+        inner = ("bin", "add", L(T), lit(1)) if V.is_num(T) else (("un", "inv", L(T)) if T != BOOL else ("un", "not", L(BOOL)))
+        for kind in SRC_KINDS:
+            if not quick or kind not in ("always", "alwaysblock"):
+                out.append(("src", kind, L(T)))
+            if not quick or kind in ("always", "alwaysblock", "localsig"):
+                out.append(("src", kind, inner))
+        if T == BOOL:
+            out.append(("tobool", ("cmp", ("lt",), (L(u(2)), L(u(2))))))
+            out.append(("tobool", ("tobool", L(BIT))))
+        return out
+
+    val_types = (u(2), BIT, BOOL) if quick else (u(2), s(2), bv(2), BIT, BOOL)
+    for T in val_types:
+        for sv in srcs(T):
+            for c in (L(BIT), L(BOOL)):
+                for tree in (("if", c, sv, L(T)), ("if", c, L(T), sv), ("if", c, sv, sv)):
+                    yield "srcsel", tree
+            for arg in (L(BIT), L(u(1))):
+                for tree in (("sel", arg, ((0, sv), (1, L(T))), None), ("sel", arg, ((0, L(T)), (1, sv)), None),
+                             ("sel", arg, ((0, L(T)),), sv), ("sel", arg, ((1, sv),), L(T)),
+                             ("sel", arg, ((0, sv),), sv)):
+                    yield "srcsel", tree
+    for T in (BIT, BOOL, u(1)):
+        for sv in srcs(T):
+            yield "srcsel", ("if", sv, L(u(2)), L(u(2)))
+            if T != BOOL:
+                yield "srcsel", ("sel", sv, ((0, L(u(2))),), L(u(2)))
+                yield "srcsel", ("sel", sv, ((0, L(u(2))), (1, L(u(2)))), None)
+    # bool(...) of boolean temporaries as operands
+    b1 = ("tobool", ("cmp", ("lt",), (L(u(2)), L(u(2)))))
+    for c in (L(BIT), L(BOOL), b1):
+        for tree in (("if", c, L(BOOL), b1), ("if", c, b1, L(BOOL)), ("if", c, L(BIT), ("conv", "temporary", BIT, b1))):
+            yield "srcsel", tree
+
+
+def _dedup(gen):
+    seen = set()
+    for fam, tree in gen:
+        tree = renumber(tree)
+        if tree not in seen and well_typed(tree):
+            seen.add(tree)
+            yield fam, tree
+
+
 CONV_FORMS = ("assign", "signal", "variable", "temporary", "varassign")
 
 
@@ -623,6 +746,10 @@ def _children(n):
         return [n[1]]
     if k == "conv":
         return [n[3]]
+    if k == "src":
+        return [n[2]]
+    if k == "multi":
+        return [n[1]]
     if k == "part":
         return [n[2]]
     if k in ("idxrt", "aidxrt"):
@@ -698,6 +825,32 @@ def render(node, leaf, mode="hw", prelude=None):
     statements that have to precede the expression (variable assignment form of conversions)."""
     k = node[0]
     R = lambda n: render(n, leaf, mode, prelude)  # noqa
+    if k == "multi":
+        parts = ", ".join(str(p_[1]) if p_[0] == "i" else f"{p_[1]}:{p_[2]}" for p_ in node[2])
+        return f"{R(node[1])}[{parts}]"
+    if k == "src":
+        kind, x = node[1], node[2]
+        if mode == "desc":
+            return f"{kind}<{R(x)}>"
+        if mode == "py":
+            return R(x)
+        ctx = (prelude or {}).get("ctx", "q")
+        if kind == "fn":
+            return f"_ident({R(x)})"
+        if kind == "localsig":
+            return _pre(prelude, f"Signal[{py_type(V.typeof(x))}]({R(x)})")
+        if ctx == "c":
+            return R(x)  # cohdl.always / local variables exist in sequential contexts only
+        if kind == "localvar":
+            return _pre(prelude, f"Variable[{py_type(V.typeof(x))}]({R(x)})")
+        if kind == "always":
+            return _pre(prelude, f"cohdl.always({R(x)})")
+        if kind == "alwaysblock":
+            name = f"{prelude['prefix']}{len(prelude['lines'])}"
+            prelude["lines"].append("with cohdl.always:")
+            prelude["lines"].append(f"    {name} = {R(x)}")
+            return name
+        raise ValueError(kind)
     if k == "conv":
         form, dst, x = node[1], node[2], node[3]
         D = py_type(dst)
@@ -787,6 +940,14 @@ def render(node, leaf, mode="hw", prelude=None):
     raise ValueError(k)
 
 
+def _pre(prelude, text):
+    if prelude is None:
+        raise ValueError("operand source needs a prelude")
+    name = f"{prelude['prefix']}{len(prelude['lines'])}"
+    prelude["lines"].append(f"{name} = {text}")
+    return name
+
+
 def describe(node):
     """canonical, type-annotated text of a tree (the identity of a failing input in finding keys)"""
     return render(node, lambda slot, t: f"{V.tname(t)}", mode="desc")
@@ -804,6 +965,10 @@ class En3(enum.Enum):
 
 for _k in range(-9, 10):
     globals()["I_m%d" % -_k if _k < 0 else "I_%d" % _k] = Integer(_k)
+
+def _ident(v):
+    return v
+
 
 _TY = {}
 
